@@ -409,3 +409,43 @@ Theorem C13_source_scan_lines : forall {A} (isN : A -> bool) chrom lines cursor 
   gen_scan isN chrom cursor run_start lines
   = let '(out, st) := scan_lines isN (cursor, run_start) lines in (tag3 chrom out, st).
 Proof. exact @source_scan_lines. Qed.
+
+(* ---- source tie: is_canonical_contig_name (cnvlib/antitarget.py), the WHOLE function "return not
+   re_noncanonical.search(name)", translated from the Python source on every run (Gen/FnAccessCanon.v fn_is_canonical): with
+   the model's pattern test it is the model's is_canonical_contig_name *)
+From CNV Require Gen.FnAccessCanon Gen.FnAccessDispatch Proofs.FnAccessCanon Proofs.FnAccessDispatch Model.AccessText Model.AccessPipe.
+
+Theorem C13_source_is_canonical : forall name : string,
+  Gen.FnAccessCanon.fn_is_canonical (noncanonical name) = is_canonical_contig_name name.
+Proof. exact Proofs.FnAccessCanon.source_is_canonical. Qed.
+
+(* ---- source tie: do_access' dispatch on skip_noncanonical (the statements before the exclude loop), translated from the
+   Python source on every run (Gen/FnAccessDispatch.v fn_access_dispatch: which table goes on, tables as opaque ids).  Under
+   any reading of ids as tables in which drop_noncanonical_contigs keeps exactly the rows whose name passes the generated
+   name rule, the table that goes on is the model's drop_noncanonical skip of the scanned table *)
+Theorem C13_source_dispatch : forall (tbl : Z -> list Model.AccessText.tagged) (drop_fn : Z -> Z) (scanned : Z) (skip : bool),
+  Proofs.FnAccessDispatch.drops_by_generated_rule tbl drop_fn ->
+  tbl (Gen.FnAccessDispatch.fn_access_dispatch scanned skip drop_fn)
+  = Model.AccessPipe.drop_noncanonical skip (tbl scanned).
+Proof. exact Proofs.FnAccessDispatch.source_dispatch. Qed.
+
+Theorem C13_source_dispatch_keep : forall (drop_fn : Z -> Z) (scanned : Z),
+  Gen.FnAccessDispatch.fn_access_dispatch scanned false drop_fn = scanned.
+Proof. exact Proofs.FnAccessDispatch.source_dispatch_keep. Qed.
+
+(* ---- loop tie: ONE ITERATION of do_access' exclude loop ("for ex_fname in exclude_fnames: excluded = tabio.read(ex_fname,
+   'bed3'); access_regions = access_regions.subtract(excluded)"), translated from the Python source on every run
+   (Gen/FnAccessExclude.v fn_exclude_step; tables as opaque ids, .subtract a method on ids).  Under any reading of ids as the
+   region lists of one sequence in which .subtract is the model's exclude_one, the step folded over the exclude files is the
+   model's exclude_all *)
+From CNV Require Gen.FnAccessExclude Proofs.FnAccessExclude.
+
+Theorem C13_source_exclude_step : forall (tbl : Z -> list (Z * Z)) (sub : Z -> Z -> Z) (acc ex : Z),
+  Proofs.FnAccessExclude.subtract_is_model tbl sub ->
+  tbl (Gen.FnAccessExclude.fn_exclude_step acc ex sub) = Model.AccessPipe.exclude_one (tbl acc) (tbl ex).
+Proof. exact Proofs.FnAccessExclude.source_exclude_step. Qed.
+
+Theorem C13_source_exclude_loop : forall (tbl : Z -> list (Z * Z)) (sub : Z -> Z -> Z) (exs : list Z) (acc : Z),
+  Proofs.FnAccessExclude.subtract_is_model tbl sub ->
+  tbl (Proofs.FnAccessExclude.exclude_loop sub exs acc) = Model.AccessPipe.exclude_all (tbl acc) (map tbl exs).
+Proof. exact Proofs.FnAccessExclude.source_exclude_loop. Qed.
